@@ -191,6 +191,10 @@ impl KnownFindings {
     /// A violation signature is suppressed iff a `known` (not `fixed`) entry for the property has
     /// exactly that signature.
     pub fn is_known(&self, property: &str, signature: &str) -> Option<&KnownEntry> {
+        // debugging aid: QV_UNKNOWN=<signature> makes one recorded finding count as new
+        if std::env::var("QV_UNKNOWN").is_ok_and(|s| s == signature) {
+            return None;
+        }
         self.entries
             .iter()
             .find(|e| e.status == "known" && e.property == property && e.signature == signature)
